@@ -54,6 +54,8 @@ class Degrees:
                 result = d
             elif isinstance(st, ast.Expr) and isinstance(st.value, ast.Constant):
                 continue
+            elif isinstance(st, (ast.Pass, ast.Assert)):
+                continue
             else:
                 raise Unknown(f'statement {type(st).__name__} at line {st.lineno}')
         if result is None:
